@@ -19,6 +19,7 @@ def check(A):
         C.decode_guard_rule(A, cf, 'C08')
         C.trigger_rules(A, cf, 'C08')
         C.status_gate_rule(A, cf, 'C08')
+        C.request_result_rule(A, cf, 'C08')
         C.loop_condition_rule(A, cf, 'C08')
         C.write_loop_sentinel_rule(A, cf, 'C08')
         C.client_factory_rule(A, cf, 'C08')
